@@ -221,6 +221,12 @@ def clearLogs (a : AppState DS) : AppState DS :=
 
 def phStr (s : String) : String := if s = "" then "-" else s
 
+def execKind : ExecState → String
+  | .unset => "Unset" | .prepared _ => "Prepared" | .preparedValid _ => "PreparedValid"
+  | .checkedPreparedMismatch _ => "CheckedPreparedMismatch" | .executedBlock _ none => "ExecutedBlock"
+  | .executedBlock _ (some _) => "ExecutedBlockFromPrepared"
+  | .checkedExecutedBlockMismatch _ _ => "CheckedExecutedBlockMismatch"
+
 def blockTags (s : Sess) (bi : BlkInfo) : String :=
   let acts := " ".intercalate ((txItemIds bi.blk).map s.specOf)
   let tags := (if bi.np > 0 then ["prices"] else []) ++
@@ -393,6 +399,8 @@ def run (lines : Array String) : Driver.Report := Id.run do
           | _ => "bad-response"
         r := r.check n line impl s!"{v} cs={kv iws "cs"} xo={kv iws "xo"} | exec={st.execStr a'.exec} rs={rs} ph={phStr a'.work.log}"
         r := r.bump s!"process_{verdict}"
+        r := r.bump s!"process_from_{execKind a.exec}"
+        r := r.bump s!"exec_after_process_{execKind a'.exec}"
         r := r.bump s!"process_path_{if skip then "cached" else "executed"}"
         -- monitors on the implementation's verdict
         let wf := bi.blk.items.all fun it => match it with | .eci _ _ w => w | _ => true
@@ -442,6 +450,7 @@ def run (lines : Array String) : Driver.Report := Id.run do
             r := r.check n line impl s!"panic {tail}{phStr staged}"
           | _ => r := r.addDisagree n line "bad-response"
           r := r.bump s!"finalize_{(verdict.splitOn ":").headD ""}"
+          r := r.bump s!"finalize_from_{execKind a.exec}"
           r := r.bump s!"finalize_path_{if skip then "cached" else "executed"}"
           if bi.np > 0 then r := r.bump s!"finalize_with_prices_{if skip then "cached" else "executed"}"
           -- monitor `path_independence`: every instance that finalizes this block reports the same
